@@ -111,6 +111,10 @@ def run(P, R, tier):
     _pbs.check_block_sums(P, R, "kmeans:m_step")
     from ..engines import traps as _traps
     _traps.check(P, R, ['gmm', 'kmeans', 'utils', 'factor_analysis', 'ivector'], scope='(utils:|gmm:(e_step|m_step|GMMMachine\\.fit)|kmeans:(e_step|m_step|accumulate_indices_means_vars|reduce_indices_means_vars|KMeansMachine\\.(fit|get_variances_and_weights_for_each_cluster))|factor_analysis:(FactorAnalysisBase\\.(initialize|fit_using_array|compute_latent_x|update_y|update_z|_prepare_dask_input)|ISVMachine\\.fit|JFAMachine\\.fit|reduce_iadd|check_dask_input_samples_per_class)|ivector:IVectorMachine\\.fit)')
+    n_add = 0
+    for k_ in ("kmeans:e_step", "kmeans:accumulate_indices_means_vars", "gmm:e_step", "ivector:e_step"):
+        n_add += _pbs.check_block_additive(P, R, k_)
+    R.floor("ACC.additive returned statistics", n_add, 10)
     from ..engines import proto as _pst
     _pst.check_standins(P, R, 'gmm:GMMMachine.fit')
     _pst.check_standins(P, R, 'ivector:IVectorMachine.fit')
@@ -122,3 +126,4 @@ def run(P, R, tier):
 
 
 EXPLANATION += ' (COVER.tree) tree-shaped reductions over the blocks (rounds that rebuild the list, window recursion, stride doubling) add every block exactly once for every number of blocks: affine tiling of the index runs after a parity split.'
+EXPLANATION += " (ACC.additive) what a per-block task returns is pooled by addition, so no returned statistic is clamped / floored / rounded inside the block; (DIM.SHAPE) a per-cluster count taken with np.bincount has minlength = the number of clusters (its length is otherwise the largest label seen in the block plus one)."
